@@ -10,16 +10,18 @@ A_STEREO = dech.A_CORE + ["[/C]", "[\\C]", "[-/Ring1]", "[\\/Ring1]", "[C@]", "[
 A_BAD = ["[C]", "[=C]", "[#C]", "[Branch1]", "[=Branch2]", "[Ring1]", "[=Ring1]", "[epsilon]",
          "[CH4]", "[Foo]", "[C+0]", "[Branch4]", "[=Ring9]", "[eps]", "[CH9]", "[--Ring1]", "[NH1]", "[O]"]
 A_FRAG = ["[C]", "[=C]", "[N]", "[#N]", "[Branch1]", "[Ring1]", "[=Ring1]", "[Ring2]", "[epsilon]", "[nop]", "."]
+A_RING = ["[C]", "[Ring1]", "[Ring2]", "[Branch1]", "[=C]"]
 A_IDX3 = ["[C]", "[=C]", "[Ring3]", "[Branch3]", "[=Branch2]", "[Ring2]", "[N]", "[O]"]
 
 
 def run(rep, tier, seed, budget):
     ctx = Ctx.get()
     quick = tier == "quick"
-    total = budget or (85 if quick else 1800)
+    total = budget or (95 if quick else 1800)
     t_end = time.time() + total
     lemmas.state_lemmas(ctx, rep, equalities=True)
     lemmas.index_read_lemma(ctx, rep)
+    lemmas.ring_order_step(ctx, rep)
 
     def level(N, alpha, keys):
         def path(eng, col):
@@ -54,10 +56,12 @@ def run(rep, tier, seed, budget):
     plan = []
     if quick:
         plan += [("core", dech.A_CORE, dech.KEYS_CORE, n) for n in (1, 2, 3, 4)]
+        plan += [("ring-heavy", A_RING, ["C", "?"], n) for n in (6,)]
         plan += [("stereo/isotope", A_STEREO, ["C", "N", "?"], n) for n in (1, 2, 3)]
         plan += [("capacity-0 / outside the grammar", A_BAD, ["C", "N", "O", "?"], n) for n in (1, 2, 3)]
         plan += [("fragments, [nop]", A_FRAG, ["C", "N", "?"], n) for n in (1, 2, 3)]
     else:
+        plan += [("ring-heavy", A_RING, ["C", "?"], n) for n in (6, 7, 8, 9)]
         plan += [("core", dech.A_CORE, dech.KEYS_CORE, n) for n in (1, 2, 3, 4, 5, 6, 7)]
         plan += [("stereo/isotope", A_STEREO, ["C", "N", "?"], n) for n in (1, 2, 3, 4, 5)]
         plan += [("capacity-0 / outside the grammar", A_BAD, ["C", "N", "O", "?"], n) for n in (1, 2, 3, 4, 5)]
@@ -97,7 +101,7 @@ def run(rep, tier, seed, budget):
         if left < 4:
             rep.parts.append({"name": name, "complete": False, "paths": 0, "bounds": {"N_symbols": n}, "claim": "not started (time budget)"})
             continue
-        res = driver.explore_parallel(level(n, alpha, keys), left * 0.5)
+        res = driver.explore_parallel(level(n, alpha, keys), left * 0.6)
         rep.add_part(name, res, {"alphabet": alpha, "N_symbols": n, "table": "keys %s free in 0..9" % keys})
     rep.assumptions += ["O-DERIV (vf/oderiv.py) is written from docs/source/derivation.rst + CHANGELOG v2.0.0 and reproduces the 65 pinned examples of tests/test_specific_cases.py; document drift D1-D3 listed there follows the pinned tests",
                         "strings of exactly N symbols over the listed alphabets (well-formed by construction: M-TOK); capacities 0..9; 'by sampling beyond' is not part of this technique and is not claimed",
